@@ -341,29 +341,32 @@ def replay(cx):
         with proxy.native():
             if ob.startswith("change_score"):
                 t = Tab()
-                cut = info["cut"]
-                got = ChangeScore(TableCost(p=p, values=t)).fit(dummy(n, p)).evaluate(np.array([cut]))
-                s, k, e = cut
-                want = [t.get(f"co_{s}_{e}_{j}") - t.get(f"co_{s}_{k}_{j}") - t.get(f"co_{k}_{e}_{j}") for j in range(p)]
-                if tuple(got.shape) != (1, p) or not np.allclose(got[0].astype(float), want):
-                    bad.append(f"ChangeScore(cost).evaluate({cut}) = {got.tolist()} but C(s,e)-C(s,k)-C(k,e) = {want} for cost table {dict(t)}")
+                batch = cuts3(n)          # the harness evaluates the whole batch in one call
+                got = ChangeScore(TableCost(p=p, values=t)).fit(dummy(n, p)).evaluate(np.array(batch))
+                for i, (s, k, e) in enumerate(batch):
+                    want = [t.get(f"co_{s}_{e}_{j}") - t.get(f"co_{s}_{k}_{j}") - t.get(f"co_{k}_{e}_{j}") for j in range(p)]
+                    if tuple(got.shape) != (len(batch), p) or not np.allclose(got[i].astype(float), want):
+                        bad.append(f"ChangeScore(cost).evaluate(batch of all {len(batch)} cuts) row {i} = cut {(s, k, e)}: {np.asarray(got[i]).tolist()} but C(s,e)-C(s,k)-C(k,e) = {want}")
+                        break
             elif ob.startswith("saving"):
                 t = Tab()
-                cut = info["cut"]
-                got = Saving(TableCost(param=0.0, p=p, values=t)).fit(dummy(n, p)).evaluate(np.array([cut]))
-                s, e = cut
-                want = [t.get(f"cf_{s}_{e}_{j}") - t.get(f"co_{s}_{e}_{j}") for j in range(p)]
-                if tuple(got.shape) != (1, p) or not np.allclose(got[0].astype(float), want):
-                    bad.append(f"Saving(cost).evaluate({cut}) = {got.tolist()} but C_fixed - C_optimal = {want} for table {dict(t)}")
+                batch = [(s, e) for s in range(n) for e in range(s + 1, n + 1)]
+                got = Saving(TableCost(param=0.0, p=p, values=t)).fit(dummy(n, p)).evaluate(np.array(batch))
+                for i, (s, e) in enumerate(batch):
+                    want = [t.get(f"cf_{s}_{e}_{j}") - t.get(f"co_{s}_{e}_{j}") for j in range(p)]
+                    if tuple(got.shape) != (len(batch), p) or not np.allclose(got[i].astype(float), want):
+                        bad.append(f"Saving(cost).evaluate(batch) row {i} = cut {(s, e)}: {np.asarray(got[i]).tolist()} but C_fixed - C_optimal = {want}")
+                        break
             elif ob.startswith("local_score"):
                 X = rng.integers(-8, 9, size=(n, p)).astype(float)
-                cut = info["cut"]
-                s, a, b, e = cut
-                got = LocalAnomalyScore(L2Cost()).fit(X).evaluate(np.array([cut]))
+                batch = cuts4(n)
+                got = LocalAnomalyScore(L2Cost()).fit(X).evaluate(np.array(batch))
                 r = lambda A: ((A - A.mean(axis=0)) ** 2).sum(axis=0)
-                want = r(X[s:e]) - r(X[a:b]) - r(np.concatenate((X[s:a], X[b:e])))
-                if tuple(got.shape) != (1, p) or not np.allclose(got[0], want):
-                    bad.append(f"LocalAnomalyScore(L2Cost).evaluate({cut}) = {got.tolist()} but outer-inner-pooled = {want.tolist()} on X={X.tolist()}")
+                for i, (s, a, b, e) in enumerate(batch):
+                    want = r(X[s:e]) - r(X[a:b]) - r(np.concatenate((X[s:a], X[b:e])))
+                    if tuple(got.shape) != (len(batch), p) or not np.allclose(got[i], want):
+                        bad.append(f"LocalAnomalyScore(L2Cost).evaluate(batch) row {i} = cut {(s, a, b, e)}: {got[i].tolist()} but outer-inner-pooled = {want.tolist()} on X={X.tolist()}")
+                        break
             else:
                 bad.append(f"{ob} failed (concrete obligation, see info {info})")
         return dict(reproduced=bool(bad), key=key, what="; ".join(bad)[:700])
